@@ -28,6 +28,7 @@ from .io import (
     HookedOSUtils,
     NonSeekableSink,
     NonSeekableSource,
+    FalsySubscriber,
     InheritedSubscriber,
     MixinSubscriber,
     RecordingSubscriber,
@@ -163,6 +164,8 @@ def prepare_xfer(obs, x):
             subs.append(InheritedSubscriber(w, x.label, f's{si}', b))  # all callbacks inherited from a base class
         elif b.get('flavor') == 'mixin':
             subs.append(MixinSubscriber(w, x.label, f's{si}', b))  # callbacks provided by a mixin
+        elif b.get('flavor') == 'falsy':
+            subs.append(FalsySubscriber(w, x.label, f's{si}', b))  # bool(subscriber) is False (len() == 0)
         else:
             subs.append(RecordingSubscriber(w, x.label, f's{si}', b))
     x.subs = subs
